@@ -2,7 +2,8 @@
 
    sem <cap> <tmo> <n> <ev>...       ev = E<i> | A<i> | T<i> | Fo<i> | Fe<i> | Fp<i> | R<i>
        replays the schedule through Sem.run_upto from Sem.sem_init n
-       -> "ok|stuck@<k> chan=<z> running=<z> holders=<z> maxrun=<z> alldone=<b> pcs=<one letter per request>"
+       -> "ok|stuck@<k> chan=<z> running=<z> holders=<z> maxrun=<z> alldone=<b> pcs=<one letter per request>
+           chans=<channel length after each enabled step, comma separated>"
           letters: i idle, w waiting, r running, l releasing, T timed out, O/E/P finished that way
 
    rate <interval> <maxpermits|inf> <timeout> (<last> <now> <tokens>)...
@@ -42,6 +43,7 @@ let run_sem cap tmo n evs =
   (* second pass, step by step, for the largest number of running requests seen *)
   let maxrun = ref (Sem.running s0) in
   let cur = ref (Some s0) in
+  let chans = Buffer.create 256 in
   Stdlib.List.iter (fun (i, l) ->
     match !cur with
     | None -> ()
@@ -51,12 +53,15 @@ let run_sem cap tmo n evs =
        | Some st' ->
          let r = Sem.running st' in
          if z_gt r !maxrun then maxrun := r;
+         if Buffer.length chans > 0 then Buffer.add_char chans ',';
+         Buffer.add_string chans (string_of_z st'.Sem.chan);
          cur := Some st')) sched;
-  Printf.sprintf "%s chan=%s running=%s holders=%s maxrun=%s alldone=%b pcs=%s"
+  Printf.sprintf "%s chan=%s running=%s holders=%s maxrun=%s alldone=%b pcs=%s chans=%s"
     (match stuck with None -> "ok" | Some k -> "stuck@" ^ string_of_int (int_of_nat k))
     (string_of_z s.Sem.chan) (string_of_z (Sem.running s)) (string_of_z (Sem.holders s))
     (string_of_z !maxrun) (Sem.all_done s)
     (String.concat "" (Stdlib.List.map pc_letter s.Sem.threads))
+    (Buffer.contents chans)
 
 let rcfg_of i m t =
   { Rate.interval = z_of_string i;
